@@ -138,6 +138,9 @@ func isImage(segPath string) bool {
 	return path.Ext(segPath) == ".jpg"
 }
 
+// timeCompareToleranceS absorbs floating point noise when times in seconds are compared (0.2-0.05 > 0.15 in float64).
+const timeCompareToleranceS = 1e-6
+
 // CheckTimeValidity checks if availTimeS is a valid time given current time and parameters.
 // Returns errors if too early, or too late. availabilityTimeOffset < 0 signals always available.
 func CheckTimeValidity(availTimeS, nowS, timeShiftBufferDepthS, availabilityTimeOffsetS float64) error {
@@ -149,7 +152,7 @@ func CheckTimeValidity(availTimeS, nowS, timeShiftBufferDepthS, availabilityTime
 	if availabilityTimeOffsetS > 0 {
 		availTimeS -= availabilityTimeOffsetS
 	}
-	if availTimeS > nowS {
+	if availTimeS > nowS+timeCompareToleranceS {
 		return newErrTooEarly(int(math.Round((availTimeS - nowS) * 1000.0)))
 	}
 	if availTimeS < nowS-(timeShiftBufferDepthS+timeShiftBufferDepthMarginS) {
